@@ -800,6 +800,8 @@ def eq_term(ctx: Ctx, a, b):
         m, d = (a, b) if isinstance(a, SMap) else (b, a)
         if not isinstance(d, dict):
             return False
+        if not d:
+            return m.has == z3.K(m.kty.sort(), z3.BoolVal(False))  # emptiness is quantifier-free
         return eq_term(ctx, m, dict_to_smap(ctx, d, m.kty, m.vty))
     if type(a).__name__ == "_SymSet" or type(b).__name__ == "_SymSet":
         ia = list(a.items) if type(a).__name__ == "_SymSet" else (list(a) if isinstance(a, (set, frozenset)) else None)
